@@ -14,6 +14,7 @@ ASSUME = ["entries are classified by lstat + the shape of the link text (absolut
 DECO = {"": "%s", "/": "%s/", "/.": "%s/.", "/..": "%s/..", "/nx-child": "%s/nx-child", "./": "./%s", "/..NUL": "%s/..\x00"}
 OPS = {"open_rdonly": ("proc_open", O["RDONLY"] | O["NONBLOCK"]), "open_path": ("proc_open", O["PATH"]), "open_dir": ("proc_open", O["RDONLY"] | O["DIRECTORY"] | O["NONBLOCK"]),
        "open_follow_path": ("proc_open_follow", O["PATH"]), "open_follow_dir": ("proc_open_follow", O["PATH"] | O["DIRECTORY"]), "readlink": ("proc_readlink", 0),
+       "open_follow_nf_path": ("proc_open_follow", O["PATH"] | O["NOFOLLOW"]), "open_follow_nf_rdonly": ("proc_open_follow", O["RDONLY"] | O["NONBLOCK"] | O["NOFOLLOW"]),
        "open_creat": ("proc_open", O["CREAT"] | O["RDWR"]), "open_follow_creat": ("proc_open_follow", O["CREAT"] | O["RDWR"]), "open_tmpfile": ("proc_open", O["TMPFILE"] | O["RDWR"])}
 SKIP = {"kmsg", "kcore", "sysrq-trigger", "kpagecount", "kpageflags", "kpagecgroup", "kallsyms", "pagemap", "mem", "clear_refs"}
 
